@@ -29,7 +29,7 @@ FRESH_RESULT = {
     'dirname', 'basename', 'isfile', 'getsize', 'keys', 'items', 'values',
 }
 # modules whose functions are library calls: they do not write through their arguments
-LIB_MODULES = {'re', 'os', 'shutil', 'subprocess', 'logging', 'tempfile', 'nestedmatcher', 'copy', 'difflib', 'filecmp', 'json', 'math', 'sys', 'platform'}
+LIB_MODULES = {'time', 're', 'os', 'shutil', 'subprocess', 'logging', 'tempfile', 'nestedmatcher', 'copy', 'difflib', 'filecmp', 'json', 'math', 'sys', 'platform'}
 PURE_FUNCS = {'len', 'str', 'int', 'min', 'max', 'list', 'reversed', 'range', 'enumerate', 'sorted', 'open', 'isinstance', 'repr', 'tuple',
               'dict', 'set', 'bool', 'float', 'abs', 'sum', 'any', 'all', 'zip', 'print', 'type', 'bytes', 'hash', 'id', 'ord', 'chr'}
 FRESH_FUNCS = PURE_FUNCS - {'min', 'max'}
@@ -180,7 +180,7 @@ class FuncTranslator:
         if isinstance(e, ast.Name):
             if e.id in self.scope:
                 return [], e.id
-            return self.fresh()             # module / builtin / class name
+            return self.anyval()            # module / builtin / class name: a shared, pre-existing object
         if isinstance(e, ast.Constant):
             return self.fresh()
         if isinstance(e, ast.JoinedStr):
@@ -311,6 +311,10 @@ class FuncTranslator:
         self.err(target, f'assignment target {type(target).__name__}')
 
     def store(self, target):
+        if isinstance(target.value, ast.Name) and target.value.id not in self.scope:
+            # a store through a global name (class attribute, module-level table): shared, pre-existing state
+            s0, g = self.anyval()
+            return s0 + [f'(SStoreAny {coq_string(g)})']
         s1, base = self.expr(target.value)
         if isinstance(target, ast.Attribute):
             return s1 + [f'(SStore {coq_string(base)} {coq_string(target.attr)})']
